@@ -6,10 +6,8 @@ import PPLV.WR.BoxTransProofsBlock
 Every function keeps the members of the box that satisfy the constraint(s), provided the
 coefficients of the variables are values of the temporary boundary type (`CoeffsExact`; always
 true for `mpq_class` / `mpz_class` temporaries: `refineSound_of_intExact`).  The hypothesis is
-needed: `BoxTransProofsFails.lean`.  `propagate_constraint_no_check` also needs the constraint not
-to be the tautology `0 == 0` (`hnt`; see the same file) — the constraint-system loops of the
-library never meet it (`Constraint_System::const_iterator` skips tautologies) and
-`refine_no_check` intercepts trivial constraints before propagating.
+needed: `BoxTransProofsFails.lean`.  (Before /repo dee742e `propagate_constraint_no_check` marked the
+box empty on the tautology `0 == 0`: `propagateConstraintNoCheckBeforeFix`, same file.)
 -/
 set_option linter.unusedVariables false
 set_option linter.unusedSimpArgs false
@@ -185,8 +183,7 @@ theorem refineNoCheck_sound {cfg : Cfg} (hS : cfg.Sound) {b : Box} {c : Con} {x 
   unfold refineNoCheck
   split
   · rename_i hnone
-    obtain ⟨t1, t2, ts, ht⟩ := extract_none hnone
-    exact propagateConstraintNoCheck_sound hS hwf (hex hnone) (fun h => by rw [ht] at h; simp at h) hx hc
+    exact propagateConstraintNoCheck_sound hS hwf (hex hnone) hx hc
   · rename_i h
     rw [trivialFalse_of_holds (extract_some_none h) hc]; exact hx
   · rename_i v h
@@ -323,8 +320,7 @@ theorem propagateConstraints_dim (cfg : Cfg) (fuel : Nat) (b : Box) (cs : List C
   · rfl
   · exact propagateConstraintsNoCheck_dim ..
 
-/-- `propagate_constraints(cs, max_iterations)`: every `fuel`, every `maxIter`.  `hnt`: no
-constraint of the list is the tautology `0 == 0` (the iterator of `Constraint_System` skips them) -/
+/-- `propagate_constraints(cs, max_iterations)`: every `fuel`, every `maxIter` -/
 theorem propagateConstraints_sound {cfg : Cfg} (hS : cfg.Sound) (fuel maxIter : Nat) {b : Box} {cs : List Con}
     {x : Nat → Rat} (hwf : ∀ c ∈ cs, c.e.WF b.dim) (hex : ∀ c ∈ cs, CoeffsExact cfg.TR c.e)
     (hx : b.mem cfg.p x) (hc : ∀ c ∈ cs, c.holds x) : (propagateConstraints cfg fuel b cs maxIter).mem cfg.p x := by
@@ -369,7 +365,7 @@ private theorem exCon2_holds : exCon2.holds exPt := by
 
 example : (propagateConstraintNoCheck Cfg.mpq (Box.univ Policy.rational 2) exCon).mem Policy.rational exPt :=
   propagateConstraintNoCheck_sound Cfg.mpq_sound (by simp [LinExpr.WF, exCon, Box.univ, Box.dim])
-    (intExact_id.coeffsExact _) (by decide) (univ_mem_aux _ _ _) exCon_holds
+    (intExact_id.coeffsExact _) (univ_mem_aux _ _ _) exCon_holds
 
 example : (refineWithConstraint Cfg.mpz (Box.univ Policy.integer 2) exCon2).mem Policy.integer exPt :=
   refineWithConstraint_sound Cfg.mpz_sound (by simp [LinExpr.WF, exCon2, Box.univ, Box.dim])
@@ -385,7 +381,6 @@ example : (propagateConstraints Cfg.mpq 5 (Box.univ Policy.rational 2) [exCon, e
   propagateConstraints_sound Cfg.mpq_sound 5 0
     (by intro c hc; simp at hc; rcases hc with rfl | rfl <;> simp [LinExpr.WF, exCon, exCon2, Box.univ, Box.dim])
     (fun c _ => intExact_id.coeffsExact _)
-    (by intro c hc; simp at hc; rcases hc with rfl | rfl <;> decide)
     (univ_mem_aux _ _ _)
     (by intro c hc; simp at hc; rcases hc with rfl | rfl; exact exCon_holds; exact exCon2_holds)
 
